@@ -23,8 +23,9 @@ CallPy(n, form, args) ==
 Next ==
   /\ Len(hist) < MaxOps
   /\ \/ \E n \in Names, v \in ArgT : Theme # "kg" /\ Add([op |-> "setdata", n |-> n, v |-> v]) /\ UNCHANGED nid
-     \/ \E n \in Names, ar \in 0..3, kl \in BOOLEAN, rz \in BOOLEAN :
-          Theme # "kg" /\ nid < MaxId /\ nid' = nid + 1 /\ Add([op |-> "setpy", n |-> n, id |-> nid + 1, ar |-> ar, kl |-> kl, rz |-> rz])
+     \/ \E n \in Names, ar \in 0..3, kl \in BOOLEAN, rz \in BOOLEAN, perm \in BOOLEAN :       \* perm: parameters declared (y, x) / (z, x, y)
+          Theme # "kg" /\ nid < MaxId /\ nid' = nid + 1 /\ (perm => ar >= 2)
+          /\ Add([op |-> "setpy", n |-> n, id |-> nid + 1, ar |-> ar, kl |-> kl, rz |-> rz, perm |-> perm])
      \/ \E n \in Names, i \in 1..Len(Bodies) : Theme # "py" /\ Add([op |-> "defkg", n |-> n, ar |-> Bodies[i][1], body |-> Bodies[i][2]]) /\ UNCHANGED nid
      \/ \E n \in Names : Kind(n) # "none" /\ Add([op |-> "del", n |-> n]) /\ UNCHANGED nid
      \/ \E w \in Slots, n \in Names : Kind(n) = "kg" /\ Add([op |-> "getwrap", w |-> w, n |-> n]) /\ UNCHANGED nid
